@@ -69,6 +69,18 @@ RULES = {
     'P3_enum_array': [
         (r'for\s*\(i,\s*mut fut\)\s*in\s*self\.futures\.iter\(\)\.enumerate\(\)', 'for i in 0..N'),
     ],
+    'P3_enum_vec': [
+        (r'for\s*\(i,\s*mut fut\)\s*in\s*futures\.iter\(\)\.enumerate\(\)', 'let nf_ = self.futures.len(); for i in 0..nf_'),
+    ],
+    # join/try_join vec: `let futures = self.futures.as_mut(); let states = &mut self.state[..];` are
+    # reborrows of fields; removed, `states[` -> `self.state[`
+    'N_vec_lets': [
+        (r'let\s+futures\s*=\s*self\.futures\.as_mut\(\);', ''),
+        (r'let\s+states\s*=\s*&mut\s+self\.state\[\.\.\];', ''),
+        (r'\bstates\[', 'self.state['),
+    ],
+    # `self.state.iter_mut().for_each(|state| { .. state.m() .. });` -> index loop
+    'P3_state_for_each': [(lambda body: for_each_to_index(body))],
     # P4: unsafe { X } wrapper around output storage calls is kept as a plain block
     'P4_unsafe_block': [
         (r'unsafe\s*\{\s*(self\.items\.\w+\([^{};]*\))\s*\}', r'\1'),
@@ -97,4 +109,29 @@ def filter_loop(body, method, pred, bound):
     ob = m.end() - 1
     cb = _lex.match_close(_lex.mask(body), ob)
     inner = body[ob + 1:cb]
-    return body[:m.start()] + 'for i in 0..%s { if self.state[i].%s() {%s} }' % (bound, pred, inner) + body[cb + 1:], 1
+    pre = ''
+    if bound != 'N':
+        pre = 'let nb_ = %s; ' % bound
+        bound = 'nb_'
+    return body[:m.start()] + pre + 'for i in 0..%s { if self.state[i].%s() {%s} }' % (bound, pred, inner) + body[cb + 1:], 1
+
+
+def for_each_to_index(body):
+    m = _re.search(r'self\.state\.iter_mut\(\)\.for_each\(\|state\|\s*\{', body)
+    if not m:
+        return body, 0
+    ob = m.end() - 1
+    masked = _lex.mask(body)
+    cb = _lex.match_close(masked, ob)
+    m2 = _re.match(r'\s*\)\s*;', body[cb + 1:])
+    if not m2:
+        return body, 0
+    inner = _re.sub(r'\bstate\.', 'self.state[k].', body[ob:cb + 1])
+    return body[:m.start()] + 'let n_ = self.state.len(); for k in 0..n_ ' + inner + body[cb + 1 + m2.end():], 1
+
+
+# extension modules vx/rules_*.py may define RULES (dict) to be merged (one file per author, no conflicts)
+import glob as _glob, importlib as _il, os as _os
+for _f in sorted(_glob.glob(_os.path.join(_os.path.dirname(__file__), 'rules_*.py'))):
+    _m = _il.import_module('vx.' + _os.path.basename(_f)[:-3])
+    RULES.update(getattr(_m, 'RULES', {}))
